@@ -74,6 +74,8 @@ if st:
     print("/repo not clean:", st)
     sys.exit(2)
 claimed = [c["property_id"] for c in json.load(open("/verif/MANIFEST.json"))["checks"]]
+skip = set(os.environ.get("SEED_SKIP", "").split())
+claimed = [c for c in claimed if c not in skip or c == ID]
 det = {}
 try:
     r = subprocess.run(["git", "-C", "/repo", "apply", os.path.join(out, "patch.diff")], capture_output=True, text=True)
